@@ -82,6 +82,61 @@ RUNTIME_FAULTS = [
     "next", "if (1) next", "g1(1); next",
 ]
 
+# ---- runtime faults raised THROUGH a compound assignment operator (+= -= *= /=) or ++ / --.  Each entry is (setup, statement):
+# the setup runs first on the same line, the fault is the statement, and the reported column must fall inside the statement.
+COMPOUND_OPS = ["+=", "-=", "*=", "/="]
+# assignable targets of every shape (setup, target text)
+CTARGETS = [("q = 5; ", "q"), ("", "qq"), ("o8 = {a: 1}; ", "o8.a"), ("o8 = {a: {b: 2}}; ", "o8.a.b"), ("arr7 = [1]; ", "arr7[0]"),
+            ("arr7 = [1, 2]; ", "arr7[5]"), ("o8 = {}; ", "o8.a.b.c"), ("o8 = {}; ", "o8[\"é\"]"), ("arr7 = [[4, 2]]; ", "arr7[0][1]"),
+            ("o8 = {k: [8]}; ", "o8.k[0]"), ("µ = 3; ", "µ"), ("o8 = {}; ", "o8['k' + 1]")]
+CZEROS = ["0", "0.0", "null", "\"a\"", "[]", "(1 - 1)", "nosuchvar", "-0", "{}", "\"a\".length() - 1", "0 * 7"]
+# statements around a compound assignment that divides by zero; T is replaced by the target and Z by the zero
+CHOSTS = ["T /= Z", "T /= Z", "y = (T /= Z)", "print T /= Z", "y = g1(T /= Z)", "for (i9 = 1; i9 < 2; T /= Z) { }", "while (T /= Z) { }",
+          "if (T /= Z) { y = 1 }", "y = arr1[T /= Z]", "y = [1, T /= Z]", "y = {k: T /= Z}", "T += T /= Z", "T /= 1; T /= Z", "T *= 2; T /= Z",
+          "y = 1 + (T /= Z)", "y = !(T /= Z)", "print 1, (T /= Z), 2", "y = match (T /= Z) { 1 => 2 }", "T++; T /= Z"]
+# targets whose store fails (setup, target)
+CBADSTORE = [("n6 = 5; ", "n6.y"), ("", "null.x"), ("q = 1; ", "q.a.b"), ("arr7 = [1]; ", "arr7[2000000]"), ("arr7 = [1]; ", "arr7[-5]"),
+             ("s = \"x\"; ", "s.length"), ("s = \"é\"; ", "s.k"), ("b = true; ", "b.k.j"), ("arr7 = [1]; ", "arr7.k"), ("o8 = {a: 5}; ", "o8.a.b"),
+             ("arr7 = [[1]]; ", "arr7[0][3000000]")]
+# targets on which only ++ / -- fail (the store of the new number fails or the target cannot be evaluated)
+CBADINC = [("", "$nope"), ("", "$file9"), ("q = [1]; ", "q.push"), ("", "arr1[1 / 0]"), ("o8 = {}; ", "o8[nofn(1)]"),
+           ("", "arr1[7 % 0]"), ("", "o1[[1] < 2]")]
+# right operands that fail
+CBADRHS = ["1 / 0", "nofn(1)", "[1] < 2", "$nope", "7 % 0", "g1(1)(2)", "\"a\" ~ \"(\"", "arr1[-9]", "num(1, 2)", "(q /= 0)"]
+
+
+def compound_faults(rng):
+    """list of (what, setup, statement)"""
+    out = []
+    # (1) the division by zero is raised by /= itself: every target x every host, a zero of every kind
+    for setup, tgt in CTARGETS:
+        for host in rng.sample(CHOSTS, 5):
+            out.append(("/= by zero", setup, host.replace("T", tgt).replace("Z", rng.choice(CZEROS))))
+    for host in CHOSTS:
+        setup, tgt = rng.choice(CTARGETS)
+        out.append(("/= by zero", setup, host.replace("T", tgt).replace("Z", rng.choice(CZEROS))))
+    for z in CZEROS:
+        setup, tgt = rng.choice(CTARGETS)
+        out.append(("/= by zero", setup, "%s /= %s" % (tgt, z)))
+    out.append(("/= by a zero variable", "d0 = 0; q = 2; ", "q /= d0"))
+    out.append(("/= by a zero member", "o8 = {z: 0}; ", "o8.n /= o8.z"))
+    # (2) the store of a compound assignment fails: every operator x every unstorable target
+    for op in COMPOUND_OPS:
+        for setup, tgt in CBADSTORE:
+            out.append(("%s into a target that cannot be stored" % op, setup, "%s %s %s" % (tgt, op, rng.choice(["1", "2.5", "\"s\"", "x1", "[1]"]))))
+    # (3) the right operand of a compound assignment fails: every operator x every failing operand
+    for op in COMPOUND_OPS:
+        for rhs in CBADRHS:
+            setup, tgt = rng.choice(CTARGETS)
+            out.append(("%s with a failing right operand" % op, setup, "%s %s %s" % (tgt, op, rhs)))
+    # (4) ++ / -- , prefix and postfix, on targets that cannot be stored or evaluated
+    for op in ("++", "--"):
+        for setup, tgt in CBADSTORE + CBADINC:
+            for form in (tgt + op, op + tgt):
+                out.append(("%s on a target that cannot be stored" % op, setup, form))
+            out.append(("%s on a target that cannot be stored" % op, setup, rng.choice(["y = %s%s", "print %s%s", "y = g1(%s%s)", "y = [%s%s]", "if (%s%s) { }"]) % (tgt, op)))
+    return out
+
 
 class C12(Check):
     pid = "C12"
@@ -164,6 +219,18 @@ class C12(Check):
             prog += b"\nBEGIN { rec(1) }\n"
             self.add(prog, {"what": "runtime fault: call depth", "line": n, "span": [src.index("rec(n + 1)"), len(src) - 2], "outcome": "runtime"}, n > 1)
 
+        # runtime faults raised through compound assignment operators and ++/--
+        cf = compound_faults(rng)
+        for what, setup, stmt in cf:
+            text = setup + stmt
+            self.plant(rng, "runtime fault through " + what, text, (len(setup.encode()), len(text.encode())), "runtime", "begin", False)
+        # ... and the same at EVERY line of a body, in every kind of body
+        by_op = {}
+        for f in cf:
+            by_op.setdefault(f[0].split(" ")[0], []).append(f)
+        for op in sorted(by_op):
+            for f in rng.sample(by_op[op], min(len(by_op[op]), (6 if thorough else 1) * (3 if op == "/=" else 1))):
+                self.every_line(rng, *f)
         # a stray `next` inside a function, called from a rule where it has no meaning: the fault is the next statement
         for _ in range(reps):
             for caller in ("BEGIN", "END"):
@@ -229,11 +296,52 @@ class C12(Check):
         self.add(prog, {"what": "%s: %s" % (kind, text), "line": n, "span": [off + span[0], off + span[1]], "outcome": outcome,
                         "exact": exact}, nlines >= 3 and n > 1)
 
-    def add(self, prog, meta, nontrivial):
+    def every_line(self, rng, what, setup, stmt):
+        """one program per line j of a K-line body (BEGIN / END / pattern rule / function called from BEGIN) with the fault on line j;
+        the lines in front of it are harmless statements"""
+        host = rng.choice(["BEGIN", "END", "pattern", "function"])
+        eol = rng.choice(["\n", "\n", "\r\n"])
+        head = [l for l in (rng.choice(FILL_TOP) for _ in range(rng.choice([0, 1, 2]))) if not l.startswith("$")]
+        head.append("function g1(a) { return a }")
+        opener = {"BEGIN": "BEGIN {", "END": "END {", "pattern": rng.choice(["{", "$ {", "$index == 0 {"]), "function": "function cf9(a) {"}[host]
+        K = rng.choice([4, 6, 9])
+        safe = [l for l in FILL_STMT if "\n" not in l and "g1(" not in l]      # one statement (or blank / comment) per line
+        for j in range(K):
+            body = [rng.choice(safe) for _ in range(K)]
+            # a prefix operator at the start of a line would continue the previous line's expression
+            pre = rng.choice(["", "  ", "\t", " \t "]) + ("x6 = 1; " if (stmt[0] in "-+" and not setup) else "") + setup
+            body[j] = pre + stmt + rng.choice(["", "", " # c ©"] + ([] if stmt.rstrip().endswith("}") else [" ; x8 = 2"]))
+            off = len(pre.encode())
+            lines = list(head)
+            first = len(lines) + 1                   # line of the opener
+            if j == 0 and rng.random() < 0.5:
+                lines.append(opener + " " + body[0])
+                off += len((opener + " ").encode())
+                lines += body[1:]
+                n = first
+            else:
+                lines.append(opener)
+                lines += body
+                n = first + 1 + j
+            if j == K - 1 and rng.random() < 0.5 and "#" not in body[j]:
+                lines[-1] += " }"
+            else:
+                lines.append("}")
+            if host == "function":
+                lines.append(rng.choice(["BEGIN { cf9(1) }", "BEGIN {\n  y = cf9(2)\n}", "END { print cf9(0) }"]))
+            n += sum(l.count("\n") for l in lines[:n - 1])          # literals spanning lines in the head
+            prog = eol.join(lines) + (eol if rng.random() < 0.7 else "")
+            self.add(prog.encode("utf-8"), {"what": "runtime fault through %s, line %d of %d of a %s body: %s" % (what, j + 1, K, host, setup + stmt),
+                                            "line": n, "span": [off, off + len(stmt.encode())], "outcome": "runtime"}, n > 1,
+                     inputs=["[1, 2]"] if host == "pattern" else ())
+
+    def add(self, prog, meta, nontrivial, inputs=()):
         cid = "p%d" % self.k
         self.k += 1
         meta = dict(meta, prog=prog.decode("utf-8", "replace"), proghex=hx(prog))
-        self.cases.append(Case(cid, simple_run(cid, prog), meta, nontrivial))
+        if inputs:
+            meta["inputs"] = list(inputs)
+        self.cases.append(Case(cid, simple_run(cid, prog, list(inputs)), meta, nontrivial))
 
     # ------------------------------------------------------------------ oracle
     def oracle(self, case, impl):
